@@ -20,6 +20,9 @@ EXPLANATION = (
   "before children are visited, children are visited in document order and appended in that order; (DEF-region) a default region "
   "is synthesised iff the document declares none."
   " (STATE-alias / STATE-global) no function of the anchored modules mutates a module- or class-level container, rebinds module / class state or mutates a mutable default argument, so a result never depends on earlier calls;"
+  " (FIN-hull) the content interval that lets from_model skip a single-region document is the hull of the content intervals (statement fold over one- and two-element sequences from the declared initial state);"
+  " (DEP-frame, body) whenever the element handed to a recursive call can be the document body, the parent interval handed with it is (None, None);"
+  " (MEMO-key) the interval / activity caches are not keyed by value objects;"
 )
 RULE_TEXT = "per guard x ordering table, per grid, per call site, per truth table"
 UNDECIDED = ["interval arithmetic under arbitrary nesting as values", "text appears once each, in document order, nothing moved between regions (data dependent)",
